@@ -266,7 +266,7 @@ Definition ptype (e : pexpr) : sty :=
 Fixpoint null_indices_from (i : nat) (ts : list sty) : list nat :=
   match ts with
   | [] => []
-  | t :: rest => if admits_null t then i :: null_indices_from (S i) rest else null_indices_from (S i) rest
+  | t :: rest => if allows_null t then i :: null_indices_from (S i) rest else null_indices_from (S i) rest
   end.
 Definition null_check_indices (d : fdesc) (arg_types : list sty) : list nat :=
   if fd_strict d then null_indices_from 0 arg_types else [].
